@@ -26,10 +26,16 @@ var registry = map[string]reflect.Type{
 	"Big":   reflect.TypeOf(fam.Big{}),
 	"CK":    reflect.TypeOf(fam.CK{}),
 	"DOuter": reflect.TypeOf(fam.DOuter{}),
+	"IBase":  reflect.TypeOf(fam.IBase{}),
+	"IMid":   reflect.TypeOf(fam.IMid{}),
+	"IX":     reflect.TypeOf(fam.IX{}),
+	"IY":     reflect.TypeOf(fam.IY{}),
+	"DElems": reflect.TypeOf(fam.DElems{}),
 }
 
 // generated New...WithDefaultValues constructors (they exist only for records that declare a default themselves)
 var constructors = map[string]interface{}{
 	"Dflt":   fam.NewDfltWithDefaultValues,
 	"DOuter": fam.NewDOuterWithDefaultValues,
+	"DElems": fam.NewDElemsWithDefaultValues,
 }
